@@ -439,7 +439,7 @@ class RunNormalizer(CallbackBase):
                 self._ext_ref_cache.append(missing)
 
     def resource(self, doc: Resource):
-        doc = copy.copy(doc)
+        doc = copy.deepcopy(doc)  # nested parameters / kwargs are edited below
         if patch := self.patches.get("resource"):
             doc = patch(doc)
 
@@ -447,7 +447,7 @@ class RunNormalizer(CallbackBase):
         self._sres_cache[doc["uid"]] = self._convert_resource_to_stream_resource(doc)
 
     def stream_resource(self, doc: StreamResource):
-        doc = copy.copy(doc)
+        doc = copy.deepcopy(doc)  # nested parameters / kwargs are edited below
         if patch := self.patches.get("stream_resource"):
             doc = patch(doc)
 
@@ -462,7 +462,7 @@ class RunNormalizer(CallbackBase):
         self.emit(DocumentNames.stream_datum, doc)
 
     def datum(self, doc: Datum):
-        doc = copy.copy(doc)
+        doc = copy.deepcopy(doc)  # nested parameters / kwargs are edited below
         if patch := self.patches.get("datum"):
             doc = patch(doc)
 
